@@ -303,6 +303,8 @@ class Composition(Loggable):
                 updated = self._update_recursive(c, chain, local_time)
                 if updated is not None:
                     return updated
+                # nothing to update upstream of this component; it is no longer part of the chain
+                chain.pop(c, None)
 
         if isinstance(comp, ITimeComponent):
             if comp.status != ComponentStatus.FINISHED:
